@@ -83,7 +83,11 @@ from tzdb.transformer import hash_name
 from zonedbpy import zone_infos
 names = sorted(zi['name'] for zi in zone_infos.ZONE_INFO_MAP.values())
 probes = json.load(open(sys.argv[1]))
-print(json.dumps({'zonedbpy': {n: hash_name(n) for n in names}, 'keys': sorted(zone_infos.ZONE_INFO_MAP.keys()), 'probes': [hash_name(p) for p in probes]}))
+infos = {k: v for k, v in vars(zone_infos).items() if k.startswith('ZONE_INFO_') and k != 'ZONE_INFO_MAP' and isinstance(v, dict)}
+listed = [id(v) for v in zone_infos.ZONE_INFO_MAP.values()]
+print(json.dumps({'zonedbpy': {n: hash_name(n) for n in names}, 'keys': sorted(zone_infos.ZONE_INFO_MAP.keys()), 'probes': [hash_name(p) for p in probes],
+                  'map': {k: v['name'] for k, v in zone_infos.ZONE_INFO_MAP.items()},
+                  'times_listed': {v['name']: listed.count(id(v)) for v in infos.values()}}))
 ''')
     allnames_file = os.path.join(work, 'probes.json')
     # ---- freshly compiled sources
@@ -95,8 +99,14 @@ print(json.dumps({'zonedbpy': {n: hash_name(n) for n in names}, 'keys': sorted(z
     for sname, lines in (('tz2025b', compiler.lines_2025b()), ('shipped-zonedbx-lines', compiler.lines_shipped('zonedbx')), ('colliding-names', collide), ('similar-names', similar)):
         w = os.path.join(work, sname)
         os.makedirs(w)
+        from .. import ziexpand, tzparse
+        declared = tzparse.parse(lines)[2]
+        warm = ()
+        if sname == 'shipped-zonedbx-lines':
+            # this source is compiled after a decoy of itself (same names, other contents, two more links) in the same process
+            warm = ('warmdir:' + ziexpand.write_input_dir(compiler.decoy_source(lines), os.path.join(w, 'indir-decoy')),)
         for scope in ('basic', 'extended'):
-            res, out, err = compiler.run_compiler(lines, w, scope, flags=('arduino', 'python'))
+            res, out, err = compiler.run_compiler(lines, w, scope, flags=('arduino', 'python') + warm)
             if res is None:
                 if sname == 'colliding-names' and 'ollision' in err[1]:
                     chk.add(collision_refused=True)
@@ -125,6 +135,12 @@ print(json.dumps({'zonedbpy': {n: hash_name(n) for n in names}, 'keys': sorted(z
             label = '%s:%s' % (sname, scope)
             # resolve each alias through the generated C++: `const ZoneInfo& kZoneAlias = kZoneTarget;` -> the zone that symbol defines
             alias_sym = dict(re.findall(r'const \w+::ZoneInfo& (kZone\w+) = (kZone\w+);', cpp))
+            # the links of the generated header are exactly the links the compiler reports as emitted, and each is declared in the source
+            if sorted(a for _s, a, _t in links) != sorted(res['emitted_links']):
+                chk.violation('%s:link-set' % label, 'zone_infos.h declares links %s, the compiler reports %s as emitted' % (sorted(set(a for _s, a, _t in links) - set(res['emitted_links']))[:5], sorted(set(res['emitted_links']) - set(a for _s, a, _t in links))[:5]), {})
+            for _s, a, t in links:
+                if a not in declared:
+                    chk.violation('%s:link:%s:not-in-source' % (label, a), 'the generated tables contain a link %s -> %s that the source does not declare' % (a, t), {'link': a, 'target': t})
             lk = [{'alias': nid(a), 'target': nid(res['emitted_links'].get(a, t)), 'resolves': nid(sym2name.get(alias_sym.get(s, '?'), '?'))} for s, a, t in links]
             dbs.append({'label': label, 'ids': ids, 'registry': [nid(n) for _s, n in reg], 'zones': [nid(n) for n in res['emitted_zones']], 'zoneset': 1, 'links': lk})
             dbs.append({'label': label + ':kZoneId-constants', 'ids': [{'n': nid(n), 'id': limbs(int(v, 16))} for _s, v, n in kids], 'registry': [], 'zones': [], 'zoneset': 0, 'links': []})
@@ -195,6 +211,13 @@ print(json.dumps({'zonedbpy': {n: hash_name(n) for n in names}, 'keys': sorted(z
         py = {'zonedbpy': {}, 'probes': [], 'keys': []}
     else:
         py = json.loads(out)
+    # the Python database's map: every name denotes the zone recorded under that name, every zone is listed exactly once
+    for k, nmv in sorted(py.get('map', {}).items()):
+        if k != nmv:
+            chk.violation('zonedbpy:map:%s' % k, "tools/zonedbpy: ZONE_INFO_MAP['%s'] is the zone recorded as '%s' (its id is that zone's, not the published id of '%s')" % (k, nmv, k), {'key': k, 'zone': nmv})
+    for nmv, cnt in sorted(py.get('times_listed', {}).items()):
+        if cnt != 1:
+            chk.violation('zonedbpy:listed:%s' % nmv, 'tools/zonedbpy: zone %s is listed %d times in ZONE_INFO_MAP' % (nmv, cnt), {'zone': nmv})
     dbs.append({'label': 'tools/zonedbpy (hash_name of its zone names)', 'ids': [{'n': nid(n), 'id': limbs(v)} for n, v in py['zonedbpy'].items()],
                 'registry': [], 'zones': [], 'zoneset': 0, 'links': []})
     probes = [{'codes': list(t.encode('latin-1')), 'id': limbs(v)} for t, v in zip(probes_txt + [n['text'] for n in names], py['probes'])]
